@@ -360,3 +360,55 @@ def ics20_obligation(pid):
 
 
 obligation('C18', 'C18-1b Ics20Withdrawal::execute: exact debit and escrow increase')(ics20_obligation('C18'))
+
+
+# ----------------------------------------------------------------------------------------------------------------- C18-5 refunds
+@obligation('C18', 'C18-5 refund_tokens (timeout / error acknowledgement): the sender is credited exactly the packet amount; escrow is released by exactly that amount iff the asset left through escrow; a rollup-originated transfer gets exactly one deposit')
+def c18_5(run):
+    ex, W = engine()
+    for a_ in COMMON:
+        run.assume(a_)
+    run.assume('errors of refund_tokens propagate (timeout_packet_execute / acknowledge_packet_execute return them), so the enclosing transaction is rolled back: only successful refunds are characterised')
+    f = ex.find(r'^refund_tokens$')
+    run.bound(state='arbitrary symbolic chain state', packet='arbitrary packet (oracles for every parse step)', unroll='loop-free')
+    w0 = initial_world()
+    pkt = Obj('ibc_types::core::channel::Packet')
+    st = ex.start(f, [B.cell(Obj('S', kind='cell')), B.cell(pkt)], world=dict(w0))
+    n_ok = 0
+    amt = z3.BitVec('packet_amount', 128)
+    for i, p in enumerate(run.explore(ex, st, poll=True, allow_havoc=(r'^Arguments::|fmt::', r'new_adhoc'))):
+        if p.kind != 'return':
+            run.prove(f'no panic [path {i}]', p.pc, z3.BoolVal(False), detail=p.info); continue
+        kind, r = poll_result(p)
+        run.sample({'path': i, 'result': kind, 'writes': [e[1] for e in p.log if e[0] == 'write']})
+        if kind != 'Ok':
+            continue
+        n_ok += 1
+        eff = effective_world(p)
+        bw = [e for e in p.log if e[0] == 'write' and e[1] == 'balance']
+        ew = [e for e in p.log if e[0] == 'write' and e[1] == 'escrow']
+        deps = eff['cached_deposits'][len(w0['cached_deposits']):]
+        if len(bw) != 1:
+            run.prove(f'successful refund credits exactly one balance [path {i}]', p.pc, z3.BoolVal(False)); continue
+        key = bw[0][2]; recipient = z3.Extract(415, 256, key); asset = z3.Extract(255, 0, key)
+        claim = [eff['balance'] == z3.Store(w0['balance'], key, z3.Select(w0['balance'], key) + amt), z3.BVAddNoOverflow(z3.Select(w0['balance'], key), amt, False)]
+        packet = ex.deref_val(p, p.roots['args'][1])
+        zone = z3.Function('is_transfer_source_zone', z3.BitVecSort(256), z3.BitVecSort(256), z3.BitVecSort(256), z3.BoolSort())
+        if ew:
+            ek = ew[0][2]
+            claim += [z3.BoolVal(len(ew) == 1), z3.Extract(255, 0, ek) == asset, z3.UGE(z3.Select(w0['escrow'], ek), amt),
+                      eff['escrow'] == z3.Store(w0['escrow'], ek, z3.Select(w0['escrow'], ek) - amt), z3.Extract(511, 256, ek) == W.ident(p, B.fld(ex, p, packet, 'chan_on_a', 'ChannelId'))]
+        else:
+            claim += [eff['escrow'] == w0['escrow']]
+        if deps:
+            d = ex.deref_val(p, deps[0])
+            claim += [z3.BoolVal(len(deps) == 1), z3.Select(w0['bridge_rollup?'], recipient), B.fld(ex, p, d, 'amount', 'u128') == amt, W.addr(p, B.fld(ex, p, d, 'bridge_address', 'Address')) == recipient,
+                      W.asset(p, B.fld(ex, p, d, 'asset', 'Denom')) == asset, z3.Select(w0['bridge_asset'], recipient) == asset, z3.BoolVal(len(eff['events']) == len(w0['events']) + 1)]
+        else:
+            claim += [z3.BoolVal(len(eff['events']) == len(w0['events']))]
+        claim.append(unchanged(w0, eff, except_=('balance', 'escrow', 'cached_deposits', 'events')))
+        run.prove(f'successful refund => sender credited exactly the packet amount; escrow released by exactly that amount on the source channel (never below zero) or untouched; at most one deposit, to a bridge account holding that asset, of that amount [path {i}]',
+                  p.pc, z3.And(*claim))
+    if not n_ok:
+        raise Inconclusive('vacuity: no successful refund')
+    run.require_reached(*run.cur.reach)
